@@ -10,6 +10,8 @@ import rules_sibling
 import rules_codec
 import rules_ftype
 import rules_canon
+import rules_storage
+import rules_dispatch
 
 
 class Context:
@@ -127,6 +129,18 @@ PROPS = {
         "design_ref": "DESIGN.md §2.3, §3 C07",
         "level_note": "trusts clang 14 CFGs; local bool flags (equal/remove) are tracked only when assigned literals or call results",
     },
+    "C08": {
+        "title": "Reachability operations return exactly the least fixed point",
+        "rules": [on_program(rules_dispatch.rule_dispatch), rules_ftype.rule_mix_image],
+        "explanation": STRUCTURAL + ". C08: one clause — the traditional (frontier / no frontier), saturation and one-step image factories select the same accumulate operator per forest kind "
+                       "(boolean MT: UNION, integer MT: DIST_MIN, EV+: MINIMUM), a necessary condition of all algorithms returning the identical edge and of the distance variants using (min, +1) everywhere; "
+                       "plus the cross-forest discipline of the reachability code.",
+        "assumptions": ["that the iteration reaches and stops at the least fixed point, and the correctness of fillSplit/recFire, are algorithmic semantics and are not decided"],
+        "technique": "dispatch-table extraction from the clang CFGs of the sibling factories (control-dependence on labeling/range tests, template arguments of the instantiated class) and comparison",
+        "level_text": "exact static rule check over the four sibling factories and the policy classes they instantiate; decides the accumulate-operator agreement clause only",
+        "design_ref": "DESIGN.md §2.9, §3 C08",
+        "level_note": "trusts clang 14 CFGs and type printing of the instantiated templates",
+    },
     "C09": {
         "title": "One-step image and vector-matrix products follow the relational definition",
         "rules": [rules_ftype.rule_mix_image],
@@ -146,6 +160,18 @@ PROPS = {
         "level_text": "exact static rule check over operations/copy.cc (all instantiations); decides the cross-forest clause only",
         "design_ref": "DESIGN.md §2.2, §3 C10",
         "level_note": "trusts clang 14 CFGs and the role table of compute() parameters",
+    },
+    "C12": {
+        "title": "Results do not depend on storage, memory-manager or deletion policy",
+        "rules": [on_program(rules_storage.rule_chunkptr), on_program(rules_storage.rule_layout), callers_for("C12"), on_program(rules_canon.rule_hash)],
+        "explanation": STRUCTURAL + ". C12: stale-chunk-pointer clause (a pointer from getChunkAddress is not used after a call that can reach requestChunk — a bug of exactly that shape shows under the reallocating managers and not under malloc style) "
+                       "and layout clause (full-only, sparse-only and either-form writers and readers of a packed node agree on the region bases and on the hash recipe, so the storage flag cannot change what is read back).",
+        "assumptions": ["the relational statement itself (same results under every policy combination) is a hyper-property over configurations and is not decided",
+                        "uses of a chunk pointer are seen only where they occur in exported events (call arguments, stores, conditions, initialisers)"],
+        "technique": "def-use path rule over clang CFGs combined with call-graph reachability of requestChunk; accessor-by-accessor comparison of region-base expressions",
+        "level_text": "exact static rule check over storage/simple.cc and storage/ct_styles.cc (all instantiations); decides the two structural clauses named, not policy independence as such",
+        "design_ref": "DESIGN.md §2.10, §2.6, §3 C12",
+        "level_note": "trusts clang 14 CFGs and call resolution; region bases are compared as normalised expressions (count names unified)",
     },
     "C13": {
         "title": "Variable reordering preserves every function and every held edge",
